@@ -9,6 +9,7 @@ NEG = {'<': '>=', '>': '<=', '<=': '>', '>=': '<', '==': '!=', '!=': '=='}
 
 _ALIAS = []      # stack of {local name: initialiser expression} of the function being rendered
 _ABSTRACT = []   # stack of {local name: type} rendered as $<type> (guard baseline: names of other locals are not facts)
+_ABSMODE = []    # stack of the abstract mode itself (a function without locals has an empty map but is still rendered abstractly)
 
 
 def local_aliases(func):
@@ -62,11 +63,13 @@ class in_function:
     def __enter__(self):
         _ALIAS.append(self.al)
         _ABSTRACT.append(self.types if self.abstract else {})
+        _ABSMODE.append(bool(self.abstract))
         return self
 
     def __exit__(self, *a):
         _ALIAS.pop()
         _ABSTRACT.pop()
+        _ABSMODE.pop()
 
 
 def lv(e):
@@ -564,7 +567,7 @@ def _catalogue(func, depth=0):
             site_cases = cctx.get(bid, {})
             _PSUB.append(psub)
             try:
-                with in_function(H, abstract=bool(_ABSTRACT and _ABSTRACT[-1])):
+                with in_function(H, abstract=bool(_ABSMODE and _ABSMODE[-1])):
                     hcat = _catalogue(H, depth + 1)
             finally:
                 _PSUB.pop()
@@ -578,4 +581,39 @@ def _catalogue(func, depth=0):
                 g2['via'] = H.name
                 g2['block'] = bid
                 out.append(g2)
+        # delegation: `return helper(args);` hands the helper's verdict on unchanged
+        for bid, b in func.blocks.items():
+            for ev in b['ev']:
+                if ev['k'] != 'return' or ev.get('val') is None:
+                    continue
+                c = cf.strip_casts(ev['val'])
+                if not (isinstance(c, dict) and c.get('k') == 'call' and c.get('fn')) or c['fn'] in HELPER_SKIP or c['fn'] == func.name:
+                    continue
+                if not P.has(func.tu, c['fn']):
+                    continue
+                H = P.func(func.tu, c['fn'])
+                if not any(True for _ in H.calls('imb_set_errno')):
+                    continue
+                psub = {}
+                for i, prm in enumerate(H.params):
+                    if i < len(c.get('a', [])):
+                        psub[prm['name']] = lv(c['a'][i])
+                site_ctx = _ctx_of(func, dom, bid, None)
+                site_cases = cctx.get(bid, {})
+                _PSUB.append(psub)
+                try:
+                    with in_function(H, abstract=bool(_ABSMODE and _ABSMODE[-1])):
+                        hcat = _catalogue(H, depth + 1)
+                finally:
+                    _PSUB.pop()
+                for g in hcat:
+                    g2 = dict(g)
+                    cs = dict(site_cases)
+                    cs.update(g['cases'])
+                    g2['cases'] = cs
+                    g2['ctx'] = sorted(site_ctx + g['ctx'])
+                    g2['catoms'] = case_atoms(func, site_cases) + g['catoms']
+                    g2['via'] = H.name
+                    g2['block'] = bid
+                    out.append(g2)
     return out
